@@ -26,7 +26,7 @@ func init() {
 			"non-trivial = the source has >= 12 tokens and Format changed at least one byte; distinct by source hash",
 		Assumptions: []string{"hclsyntax.LexConfig defines the token sequence of a text (its own tiling is C14's subject)", "cty value equality"},
 		Quick:       Plan{Batches: 16, PerBatch: 1500, MinNonTrivial: 8000},
-		Thorough:    Plan{Batches: 64, PerBatch: 24000, MinNonTrivial: 150000},
+		Thorough:    Plan{Batches: 64, PerBatch: 12000, MinNonTrivial: 150000},
 		Case:        c09Case,
 	})
 }
